@@ -45,6 +45,10 @@ def enc(leaf, v):
 
 
 def _txt(s, w, right):
+    if isinstance(s, (bytes, bytearray)):  # verbatim token (e.g. left-justified): must be exactly w bytes
+        if len(s) != w:
+            raise ValueError(f"verbatim token {s!r} is not {w} bytes")
+        return bytes(s)
     if not isinstance(s, str):
         s = str(s)
     b = s.encode("ascii")
